@@ -224,6 +224,34 @@ fn op_split_off<const N: usize>(lens: [usize; N], oor: bool) {
     });
 }
 
+/// Same contracts at ONE concrete position (strictly inside a chunk that has chunks behind
+/// it): with a concrete position the whole run is concrete except the bytes, so these
+/// instances stay cheap whatever shape the implementation's Vec surgery takes.
+fn op_split_off_at<const N: usize>(lens: [usize; N], at: usize) {
+    let p = any_pre();
+    kani::cover!(true, "pre-state chosen, operation about to run");
+    let (mut c, mut m) = build(&p, lens);
+    let o = c.split_off(at);
+    let mo = m.split_off(at);
+    check(&c, &m);
+    check(&o, &mo);
+    done();
+    core::mem::forget(c);
+    core::mem::forget(o);
+}
+fn op_split_to_at<const N: usize>(lens: [usize; N], at: usize) {
+    let p = any_pre();
+    kani::cover!(true, "pre-state chosen, operation about to run");
+    let (mut c, mut m) = build(&p, lens);
+    let o = c.split_to(at);
+    let rest = m.split_off(at);
+    check(&o, &m);
+    check(&c, &rest);
+    done();
+    core::mem::forget(c);
+    core::mem::forget(o);
+}
+
 fn op_split_to<const N: usize>(lens: [usize; N], oor: bool) {
     let p = any_pre();
     for_arg(total_of(lens), oor, |at| {
@@ -406,6 +434,13 @@ h!(c20_split_off_oor_s0, 14, op_split_off([], true));
 h!(c20_split_off_oor_s12, 14, op_split_off([1, 2], true));
 h!(c20_split_off_oor_s213, 14, op_split_off([2, 1, 3], true));
 
+h!(c20_split_off_at1_s31, 14, op_split_off_at([3, 1], 1));
+h!(c20_split_off_at2_s31, 14, op_split_off_at([3, 1], 2));
+h!(c20_split_off_at1_s213, 14, op_split_off_at([2, 1, 3], 1));
+h!(c20_split_off_at4_s213, 14, op_split_off_at([2, 1, 3], 4));
+h!(c20_split_to_at1_s31, 14, op_split_to_at([3, 1], 1));
+h!(c20_split_to_at2_s31, 14, op_split_to_at([3, 1], 2));
+h!(c20_split_to_at1_s213, 14, op_split_to_at([2, 1, 3], 1));
 h!(c20_split_to_in_s0, 14, op_split_to([], false));
 h!(c20_split_to_in_s2, 14, op_split_to([2], false));
 h!(c20_split_to_in_s12, 14, op_split_to([1, 2], false));
